@@ -250,12 +250,12 @@ CHECKS["C18"] = {
 }
 
 CHECKS["C03"] = {
-    "runs": [R("./parser", {"fn": r"^ZZ_C03_(operator_tokens|decimal_literals|hex_literals|binary_literals|int64_edge|hex_binary_edge|float_and_malformed|string_literals|raw_string_literals|precedence_2|ternary|unary_stacking)$"},
+    "runs": [R("./parser", {"fn": r"^ZZ_C03_(operator_tokens|decimal_literals|hex_literals|binary_literals|int64_edge|hex_binary_edge|float_and_malformed|float_roundtrip|string_literals|raw_string_literals|precedence_2|ternary|unary_stacking)$"},
                           {"fn": r"^ZZ_C03_", "wall_timeout": 10000})],
-    "expect_asserts": [r"C03\.operator/==/longest-match-token", r"C03\.int-literal/base10/exact-value", r"C03\.int-literal/base16/exact-value", r"C03\.int64-edge/not-representable-rejected",
+    "expect_asserts": [r"C03\.operator/==/longest-match-token", r"C03\.int-literal/base10/exact-value", r"C03\.int-literal/base16/exact-value", r"C03\.int64-edge/not-representable-rejected", r"C03\.float-literal/roundtrip/denotes-the-nearest-float64/shortest-decimal",
                        r"C03\.string-literal/denotes-exactly-what-is-written", r"C03\.precedence/\+,\*/same-tree-as-explicit-parentheses", r"C03\.ternary/same-tree-as-explicit-parentheses/.*"],
     "bounds": {"quick": {"operators": "every spelling of the reference token table followed by an arbitrary ASCII rune (solver)", "integer literals": "1..4 symbolic decimal digits (+sign), 1..3 hex digits, 1..4 binary digits through the real scanner, grammar action and strconv.ParseInt (interpreted from its SSA); the int64 edge by an 18-digit prefix + symbolic last digit",
-                         "floats / malformed numbers": "17 concrete spellings", "strings": "0..3 symbolic characters incl. backslash, both quotes; raw strings", "precedence": "all ordered pairs of the 19 binary operators (incl. in and ??) x 5 statement contexts; 7 ternary shapes x every operator"},
+                         "floats / malformed numbers": "17 concrete spellings; 1536 structured float64 values (12 binades x 128 mantissa patterns, both signs) in the three spellings Go's formatter gives, read back bit for bit (concrete pool: decimal-to-binary rounding of a symbolic numeral is outside the encoding)", "strings": "0..3 symbolic characters incl. backslash, both quotes; raw strings", "precedence": "all ordered pairs of the 19 binary operators (incl. in and ??) x 5 statement contexts; 7 ternary shapes x every operator"},
                "thorough": {"precedence": "all triples of operators; pairs with unary prefixes and postfix forms on the first two operands", "integer literals": "up to 6 decimal digits"}},
     "stubs": ["strconv.ParseFloat: native on concrete spellings"],
     "assumptions": ["symbolic characters are ASCII", "same tree => same value, so the interpreter is not needed for the precedence part"],
